@@ -404,14 +404,20 @@ void command_handler::get(const std::vector<std::string> & args)
      */
     std::error_code ec;
 
-    if (std::filesystem::exists(local_file, ec))
-    {
-        throw cmdline_exception("File '%1%' already exists.", local_file);
-    }
+    /* Look at the directory entry itself, not at what it points to: a dangling
+     * symbolic link exists as well, and must neither be written through nor
+     * removed.
+     */
+    std::filesystem::file_status status = std::filesystem::symlink_status(local_file, ec);
 
-    if (ec)
+    if (!std::filesystem::status_known(status))
     {
         throw cmdline_exception("Cannot create file '%1%'.", local_file);
+    }
+
+    if (std::filesystem::exists(status))
+    {
+        throw cmdline_exception("File '%1%' already exists.", local_file);
     }
 
     std::ofstream ofs(local_file, std::ios_base::binary);
